@@ -214,7 +214,7 @@ func runC06(r *core.Run) {
 		"each repetition samples fresh map-iteration orders. distinct by hash(input); non-trivial = >= 2 buckets at the default level")
 	r.Assume("Go randomises every range over a map, so each repetition is a new schedule of the map iterations")
 	reps := r.N(30, 200)
-	n := r.N(300, 5000)
+	n := r.N(800, 6000)
 	core.Parallel(n, workers(), func(i int) {
 		rr := core.NewRand(r.Seed, 61, uint64(i))
 		var d *gen.Dump
@@ -230,12 +230,12 @@ func runC06(r *core.Run) {
 			r.Sample(map[string]any{"dump": b2s(d.Render(), 900), "repetitions": reps})
 		}
 	})
-	nf := r.N(60, 1500)
+	nf := r.N(150, 2000)
 	core.Parallel(nf, workers(), func(i int) {
 		c06FS(r, &c06Case{Kind: "fs", Seed: r.Seed, Idx: i, Reps: r.N(20, 60)})
 		r.Distinct(uint64(1e9) + uint64(i))
 	})
-	np := r.N(24, 400)
+	np := r.N(48, 500)
 	core.Parallel(np, workers(), func(i int) {
 		rr := core.NewRand(r.Seed, 62, uint64(i))
 		d := tieDump(rr)
